@@ -54,6 +54,7 @@ LEMMAS = [
 CONTRACTS = [
     FN("betterproto.dump_varint",
        types={"value": "int", "stream": "stream"}, returns="none", modifies=["stream"],
+       requires=[("append-position", "stream.pos == len(stream.data)")],
        ghost={"V0": "value + (1 << 64) if value < 0 else value"},
        ensures=[
            ("writes-encoding", "stream.data == old(stream.data) + VARINT(V0)"),
@@ -61,12 +62,12 @@ CONTRACTS = [
        ],
        top=["C16-canonical"],
        raises=[("ValueError", "iff", "value < -(1 << 63)")],
-       loops={0: LOOP(inv=[("range", "0 <= bits < 128 and value >= 0"),
+       loops={0: LOOP(inv=[("range", "0 <= bits < 128 and value >= 0 and stream.pos == len(stream.data)"),
                            ("written", "stream.data + VARINT(bits + 128 * value) == old(stream.data) + VARINT(V0)")],
                       decreases="value")},
        use=[("U64_RANGE", {"x": "old(value)"})],
        props=["C16", "C09", "C10"],
-       witness={"value": 300}),
+       witness={"value": 300, "stream": (b"ab", 2)}),
     FN("betterproto.encode_varint",
        types={"value": "int"}, returns="bytes",
        ensures=[
@@ -82,6 +83,8 @@ CONTRACTS = [
        types={"value": "int"}, returns="int",
        ensures=[
            ("C16-size", f"implies({INT64_DOMAIN}, result == len(VARINT(U64(old(value)))))"),
+           ("size-range", f"implies({INT64_DOMAIN}, 1 <= result <= 10)"),
+           ("size-nonneg", "implies(0 <= old(value) < (1 << 64), result == len(VARINT(old(value))))"),
        ],
        top=["C16-size"],
        raises=[("ValueError", "iff", "value < -(1 << 63)")],
@@ -132,3 +135,54 @@ CONTRACTS = [
        props=["C16", "C02", "C17"],
        witness={"buffer": b"\x00\xac\x02", "pos": 1}),
 ]
+
+
+# ---- sampled inputs for the run-time (CPython) reading of the same contracts ---------------------------
+def _ints(rnd, n):
+    vals = {0, 1, -1, 127, 128, 255, 256, 300, -(1 << 63), -(1 << 63) - 1, -(1 << 70), (1 << 64) - 1, 1 << 64, (1 << 64) + 5}
+    for k in list(range(0, 71, 7)) + [31, 32, 33, 62, 63, 64, 65]:
+        for d in (-1, 0, 1):
+            vals.add((1 << k) + d)
+            vals.add(-(1 << k) + d)
+    out = sorted(vals)
+    while len(out) < n:
+        b = rnd.choice([7, 14, 21, 32, 63, 64, 66])
+        out.append(rnd.randrange(-(1 << b), 1 << b))
+    return out[:max(n, len(vals))]
+
+
+def _enc(v):
+    out = bytearray()
+    while True:
+        b = v & 0x7F
+        v >>= 7
+        if v:
+            out.append(b | 0x80)
+        else:
+            out.append(b)
+            return bytes(out)
+
+
+def _varint_bytes(rnd, n):
+    out = [b"", b"\x00", b"\x80", b"\x80\x00", b"\xff" * 9 + b"\x01", b"\xff" * 9 + b"\x7f", b"\xff" * 10, b"\x80" * 10 + b"\x00",
+           b"\x80" * 9 + b"\x00", b"\xac\x02", b"\xac\x02tail", b"\xff" * 3]
+    for v in _ints(rnd, 0):
+        if 0 <= v < (1 << 70):
+            e = _enc(v)
+            out.append(e)
+            out.append(e[:-1])                                   # truncated
+            out.append(e[:-1] + bytes([e[-1] | 0x80]) + b"\x00")  # padded (non-minimal)
+    while len(out) < n:
+        ln = rnd.randrange(0, 12)
+        out.append(bytes(rnd.choice([0, 1, 0x7f, 0x80, 0x81, 0xff, rnd.randrange(256)]) for _ in range(ln)))
+    return out
+
+
+SAMPLES = {
+    "betterproto.dump_varint": lambda rnd, n: [{"value": v, "stream": (d, len(d))} for v in _ints(rnd, n)
+                                               for d in [bytes(rnd.randrange(256) for _ in range(rnd.randrange(3)))]],
+    "betterproto.encode_varint": lambda rnd, n: [{"value": v} for v in _ints(rnd, n)],
+    "betterproto.size_varint": lambda rnd, n: [{"value": v} for v in _ints(rnd, n)],
+    "betterproto.load_varint": lambda rnd, n: [{"stream": (pre + b, len(pre))} for b in _varint_bytes(rnd, n) for pre in (b"", b"\x81")],
+    "betterproto.decode_varint": lambda rnd, n: [{"buffer": pre + b, "pos": len(pre)} for b in _varint_bytes(rnd, n) for pre in (b"", b"\x81")],
+}
